@@ -18,8 +18,25 @@ MODE_SIGIL = {"val": "", "ref": "&", "mut": "&mut "}
 LIFE_ATTR = {"request": "request_scoped", "singleton": "singleton", "transient": "transient"}
 
 
+PLACEHOLDER = "qqmodqq"  # module name inside corpus specs (upper-cased for the ids of the annotations)
+
+
+def corpus_specs():
+    """corpus/C04/*.jsonl lines of the form {"spec": AppSpec, "note": ...}: hand-minimised applications that always run first"""
+    here = os.path.dirname(os.path.dirname(os.path.abspath(__file__)))
+    d = os.path.join(here, "corpus", "C04")
+    out = []
+    if os.path.isdir(d):
+        for fn in sorted(os.listdir(d)):
+            if fn.endswith(".jsonl"):
+                for l in open(os.path.join(d, fn)):
+                    if l.strip() and '"spec"' in l:
+                        out.append(l.strip())
+    return out
+
+
 def plan(tier):
-    return 12 if tier == "quick" else 160
+    return len(corpus_specs()) + (12 if tier == "quick" else 160)
 
 
 # ---- the scoping rule, read off the documentation (runtime/pavex/src/blueprint/nesting.rs) ------------------
@@ -109,6 +126,15 @@ def lean_bp(spec):
     return conv(spec["bp"])
 
 
+def life_request(spec):
+    """the protocol line of the Lean `life` driver for a spec"""
+    defs = ctor_defs(spec)
+    return {"op": "life", "bp": lean_bp(spec),
+            "ctors": [{"uid": d["uid"], "ty": d["out"], "life": d["life"], "clone": bool(d["cloning"]), "ins": d["ins"]} for d in defs.values()],
+            "handlers": [{"id": h["i"], "ins": h["ins"]} for h in spec["handlers"]],
+            "mws": [{"id": m["i"], "kind": m["kind"], "ins": m["ins"]} for m in spec["mws"]]}
+
+
 # ---- generation ----------------------------------------------------------------------------------------------
 
 def render_xctor(name, x):
@@ -194,10 +220,12 @@ def _gen(rng, name):
         if c["fallible"]:
             head.append(["eh", "c", c["i"]])
     for x in xctors:
-        # mostly nested levels; sometimes the root (an override inside one blueprint); sometimes registered twice
+        # mostly nested levels; sometimes the root (an override inside one blueprint); sometimes registered twice against
+        # the same blueprint. One function is never registered against two blueprints: those would be two constructors
+        # for pavexc (one per registration) that a trace could not tell apart.
         where = [rng.randrange(0, n_nodes) if rng.random() < 0.3 else rng.randrange(1, n_nodes)]
         if rng.random() < 0.15:
-            where.append(rng.randrange(0, n_nodes))
+            where.append(where[0])
         for w in where:
             items[w].append(reg_op(name, x["name"]))
     n_routes = rng.choice([2, 3, 3, 4, 5])
@@ -286,18 +314,14 @@ def predicted_panic(spec):
     if exe is None:
         return None
     try:
-        import gen_lifecycle_input
-    except ImportError:
-        return None
-    try:
-        line = json.dumps(gen_lifecycle_input.request(spec))
+        line = json.dumps(life_request(spec))
         p = subprocess.run([exe, "life"], input=line + "\n", stdout=subprocess.PIPE, stderr=subprocess.PIPE, text=True, timeout=60)
         if p.returncode != 0:
             return None
         out = json.loads(p.stdout.strip().split("\n")[-1])
         if out.get("r") != "ok":
             return None
-        return bool(out.get("panics"))
+        return any(r.get("panics") for r in out.get("routes", []))
     except Exception:
         return None
 
@@ -306,6 +330,14 @@ def make(rng, name):
     """Three quarters of the family keep every pipeline unambiguous (one constructor per type along the
     handler's middleware chain); the rest may mix scopes inside one pipeline, unless the compiler is
     predicted to panic on it (that shape is reported separately and kept out of the shared stage)."""
+    cs = corpus_specs()
+    idx = int(name[1:]) if name[1:].isdigit() else len(cs)
+    if idx < len(cs):
+        spec = json.loads(cs[idx].replace(PLACEHOLDER, name).replace(PLACEHOLDER.upper(), name.upper()))["spec"]
+        spec["klass"] = "scopes"
+        spec["corpus"] = True
+        spec["ambiguous_pipeline"] = ambiguous_pipeline(spec)
+        return spec
     want_ambiguous = rng.random() < 0.3
     last = None
     for _ in range(40):
